@@ -729,6 +729,87 @@ def oracle_docsvg(args, out):
 
 
 # ---------------------------------------------------------------------------------------------
+# SVG: viewBox -> viewport (SVG 1.1 §7.8, preserveAspectRatio)
+
+STANDARD_ALIGNS = {f'x{x}Y{y}': (x.lower(), y.lower()) for x in ('Min', 'Mid', 'Max') for y in ('Min', 'Mid', 'Max')}
+
+
+def ref_viewbox_transform(viewbox, par, width, height):
+    """-> (sx, sy, tx, ty) by the SVG specification, or None outside the domain."""
+    if len(viewbox) != 4 or viewbox[2] <= 0 or viewbox[3] <= 0:
+        return None
+    words = par.split()
+    if not words or len(words) > 2 or (len(words) == 2 and words[1] not in ('meet', 'slice')):
+        return None
+    vx, vy, vw, vh = viewbox
+    sx, sy = width / vw, height / vh
+    if words[0] == 'none':
+        return sx, sy, -vx * sx, -vy * sy
+    if words[0] not in STANDARD_ALIGNS:
+        return None
+    s = max(sx, sy) if words[1:] == ['slice'] else min(sx, sy)
+    ax, ay = STANDARD_ALIGNS[words[0]]
+    tx = {'min': 0, 'mid': (width - vw * s) / 2, 'max': width - vw * s}[ax] - vx * s
+    ty = {'min': 0, 'mid': (height - vh * s) / 2, 'max': height - vh * s}[ay] - vy * s
+    return s, s, tx, ty
+
+
+def _par(code_points):
+    return ''.join(chr(int(c)) for c in code_points)
+
+
+def _judge_ratio(name, viewbox, par, width, height, out):
+    want = ref_viewbox_transform(viewbox, par, width, height)
+    if want is None or width < 0 or height < 0:
+        return None
+    if out.startswith('err'):
+        return f'{name} raised {out[4:]} for viewBox {viewbox} preserveAspectRatio {par!r}'
+    got = tuple(numbers(out))
+    if got != tuple(want):
+        return (f'{name}: viewBox {tuple(map(str, viewbox))} preserveAspectRatio {par!r} in a {width}x{height} '
+                f'viewport: (scale_x, scale_y, translate_x, translate_y) = {tuple(map(str, got))}, SVG §7.8 gives '
+                f'{tuple(map(str, want))}')
+    return None
+
+
+def oracle_svgratio(args, out):
+    viewbox, root, iw, ih, par, marker, width, height = args
+    if marker is not None:
+        return None
+    return _judge_ratio('preserve_ratio', viewbox, _par(par), width, height, out)
+
+
+def oracle_svgroot(args, out):
+    viewbox, iw, ih, par, width, height = args
+    return _judge_ratio('SVG.draw (root <svg>)', viewbox, _par(par), width, height, out)
+
+
+def oracle_svgimage(args, out):
+    width, height, iw, ih, ir = args
+    if not consistent((iw, ih, ir)) or width < 0 or height < 0:
+        return None
+    if out.startswith('err'):
+        # a known width or height without a ratio to complete it: TypeError in the unchanged code (None * number)
+        return None if (iw is None) != (ih is None) and ir is None else f'svg <image> raised {out[4:]}'
+    if iw is None and ih is None:
+        if ir is None or (not width and not height):
+            iw, ih = Fraction(300), Fraction(150)
+        elif not width:
+            iw, ih = ir * height, height
+        else:
+            iw, ih = width, width / ir
+    elif iw is None:
+        iw = ir * ih
+    elif ih is None:
+        ih = iw / ir
+    want = (width or iw, height or ih, iw, ih)
+    got = tuple(numbers(out))
+    if got != want:
+        return f'svg <image> width={width} height={height} intrinsic={(iw, ih, ir)}: box/size {got}, expected {want}'
+    return None
+
+
+# ---------------------------------------------------------------------------------------------
 # embedding decisions of RasterImage: alpha kept, colour space, lossless pass-through, decoded pixels
 
 def oracle_embed(args, out):
@@ -772,6 +853,89 @@ def oracle_embed(args, out):
     return None
 
 
+def oracle_orient(args, out):
+    """css-images-3 image-orientation on a pixel grid: rotate to the right, then flip horizontally.
+    Quarter turns are the known finding image-orientation-rotates-ccw: not judged."""
+    kind, angle, flip, rows = args
+    if out.startswith('err'):
+        return f'rotate_pillow_image raised {out[4:]}'
+    if kind != 'turn':
+        want = rows
+    elif angle in (0, 180):
+        want = [row[::-1] for row in rows[::-1]] if angle == 180 else rows
+        if flip:
+            want = [row[::-1] for row in want]
+    else:
+        return None
+    items = sx.loads_line(out)
+    got = [[Fraction(v) for v in row] for row in items[4]]
+    if got != [[Fraction(v) for v in row] for row in want]:
+        return f'image-orientation {kind} {angle} flip={flip} on {rows}: pixels {got}, expected {want}'
+    return None
+
+
+def oracle_orientangle(args, out):
+    q = args[0]
+    want = (py_round(q) % 4) * 90
+    if q - math.floor(q) == Fraction(1, 2):
+        return None
+    if out != str(want):
+        return f'image-orientation {q * 90}deg computes to {out}, expected {want}'
+    return None
+
+
+def oracle_prefwidth(args, out):
+    """css-sizing intrinsic contributions of a replaced element (content-box or margin-box width)."""
+    minimum, outer, style, intr = args
+    names = ('width', 'height', 'minw', 'maxw', 'minh', 'maxh', 'ml', 'mr', 'pl', 'pr', 'bl', 'br')
+    s = dict(zip(names, style))
+    if not consistent(intr):
+        return None
+    for k in ('width', 'height', 'minw', 'maxw', 'minh', 'maxh', 'pl', 'pr'):
+        if isinstance(s[k], list) and s[k][1] < 0:
+            return None
+    if out.startswith('err'):
+        return f'replaced intrinsic width raised {out[4:]}'
+    iw, ih, r = intr
+
+    def px(d):
+        return d[1] if isinstance(d, list) and d[0] == 'px' else None
+    if px(s['width']) is not None:
+        w = px(s['width'])
+    elif s['width'] != 'auto':
+        w = Fraction(0)                                   # percentage: compressible to 0
+    elif minimum and (isinstance(s['maxw'], list) and s['maxw'][0] == '%'):
+        w = Fraction(0)
+    elif minimum and r and not iw and not ih:
+        w = Fraction(0)
+    else:
+        h = px(s['height'])
+        w = ref_default_sizing(intr, 'auto', 'auto' if h is None else h, Fraction(300), Fraction(150))[0]
+    lo = px(s['minw']) or Fraction(0)
+    hi = px(s['maxw']) if px(s['maxw']) is not None else INF
+    if r is not None:
+        if px(s['minh']) is not None:
+            lo = max(lo, px(s['minh']) * r)
+        if px(s['maxh']) is not None:
+            hi = min(hi, px(s['maxh']) * r)
+    w = max(lo, min(w, hi))
+    if outer:
+        pct = Fraction(0)
+        for k in ('ml', 'pl', 'mr', 'pr'):
+            if isinstance(s[k], list):
+                if s[k][0] == 'px':
+                    w += s[k][1]
+                else:
+                    pct += s[k][1]
+        w += s['bl'] + s['br']
+        w = w / (1 - pct / 100) if pct < 100 else Fraction(0)
+    got = numbers(out)[0]
+    if got != w:
+        return (f'{"min" if minimum else "max"}-content {"outer " if outer else ""}width of a replaced box '
+                f'{dict(s)} intrinsic {tuple(map(str, intr))}: {got}, expected {w}')
+    return None
+
+
 ORACLES = {
     'dis': oracle_dis, 'constraint': oracle_constraint, 'rlayout': oracle_rlayout,
     'irwh': oracle_irwh, 'irl': lambda a, o: oracle_irwh(a, o, 'inline_replaced_box_layout'),
@@ -781,7 +945,9 @@ ORACLES = {
     'rbh': oracle_rbh, 'blw': oracle_blw, 'blwcore': oracle_blw,
     'bglayer': oracle_bglayer, 'bgdraw': oracle_bgdraw, 'dedupe': oracle_dedupe, 'imgcount': oracle_imgcount,
     'drawrep': oracle_drawrep, 'rdraw': oracle_rdraw, 'docimg': oracle_docimg, 'docsvg': oracle_docsvg,
-    'svgintr': oracle_svgintr, 'embed': oracle_embed,
+    'svgintr': oracle_svgintr, 'embed': oracle_embed, 'svgratio': oracle_svgratio, 'svgroot': oracle_svgroot,
+    'svgimage': oracle_svgimage, 'orient': oracle_orient, 'orientangle': oracle_orientangle,
+    'prefwidth': oracle_prefwidth,
 }
 
 
